@@ -8,7 +8,7 @@
    chain looks at (incoming for "from" chains, outgoing for "to" chains);
    `names_ok wc names` says every name is non-empty and does not end in the wildcard byte. *)
 From Coq Require Import List NArith Bool Arith.
-From Verif.C10 Require Import Nf Model Spec Proofs MapsModel MapsSpec MapsProofs MapsInv.
+From Verif.C10 Require Import Nf Model Spec Proofs SetMark MapsModel MapsSpec MapsProofs MapsInv.
 Import ListNotations.
 Open Scope N_scope.
 
@@ -85,8 +85,9 @@ Proof. exact vmap_same. Qed.
 Print Assumptions c10_vmap_same.
 
 (* The specification oracle used on the implementation's output accepts every run of the model
-   (any configuration, any names incl. out-of-domain ones, any probes). *)
-Theorem c10_model_meets_spec : forall c, c_impl c = model_of c -> ok_case c = true.
+   (any configuration, any names incl. out-of-domain ones, any probes) - for workload and host dispatch.
+   For the set-endpoint-mark chain the statement is FALSE (c10_setmark_unknown_fallthrough_refuted below). *)
+Theorem c10_model_meets_spec : forall c, is_setmark (c_kind c) = false -> c_impl c = model_of c -> ok_case c = true.
 Proof. exact model_meets_spec. Qed.
 Print Assumptions c10_model_meets_spec.
 
@@ -132,6 +133,75 @@ Proof.
   split; [|vm_compute; reflexivity]. simpl. intros [H|[]]. discriminate.
 Qed.
 Print Assumptions c10_trailing_wildcard_refuted.
+
+(* ======================= set-endpoint-mark dispatch (EndpointMarkDispatchChains, IPVS mode) =======================
+   Model: Model.set_mark_dispatch (workload and host endpoint names divided separately, child chains
+   "cali-set-endpoint-mark-wep-<c>" / "-hep-<c>" built WITHOUT end rules, root = wl root rules ++ hep root rules ++
+   "Unknown endpoint" deny per workload prefix ++ non-Calico endpoint mark).  `captured gs i`: interface i matches the
+   "prefix<wildcard> -> goto child" rule of a bin with a child chain. *)
+
+(* exact verdict for every packet *)
+Theorem c10_setmark_dispatch_exact : forall c wl hep mk msk,
+  names_ok (sem_wildcard (cf_nft c)) wl = true -> names_ok (sem_wildcard (cf_nft c)) hep = true ->
+  exists rs, set_mark_dispatch c wl hep mk msk = Some rs /\
+    forall pk,
+      eval (sem_wildcard (cf_nft c)) rs pk (CRoot KSetMark) =
+      if mem (p_in pk) wl then REndpoint KSetMark (p_in pk)
+      else if captured (snd (sm_groups wl)) (p_in pk) then RReturn
+      else if mem (p_in pk) hep then REndpoint KSetMark (p_in pk)
+      else if captured (snd (sm_groups hep)) (p_in pk) then RReturn
+      else if existsb (fun p => is_prefix p (p_in pk)) (cf_wlpfx c) then deny_result (cf_reject c)
+      else RReturnMarked mk msk.
+Proof. exact setmark_char. Qed.
+Print Assumptions c10_setmark_dispatch_exact.
+
+(* what the property says (known interface -> own chain; unknown interface with a workload prefix -> denied;
+   everything else -> non-Calico mark) holds for every packet that no foreign child chain captures *)
+Theorem c10_setmark_meets_spec_unless_captured : forall c wl hep mk msk rs pk,
+  names_ok (sem_wildcard (cf_nft c)) wl = true -> names_ok (sem_wildcard (cf_nft c)) hep = true ->
+  set_mark_dispatch c wl hep mk msk = Some rs ->
+  (mem (p_in pk) wl = true \/ captured (snd (sm_groups wl)) (p_in pk) = false) ->
+  (mem (p_in pk) wl = true \/ mem (p_in pk) hep = true \/ captured (snd (sm_groups hep)) (p_in pk) = false) ->
+  eval (sem_wildcard (cf_nft c)) rs pk (CRoot KSetMark) =
+  spec_setmark (cf_reject c) (cf_wlpfx c) wl hep mk msk (p_in pk).
+Proof. exact setmark_meets_spec_unless_captured. Qed.
+Print Assumptions c10_setmark_meets_spec_unless_captured.
+
+(* FINDING (known-findings.txt key setmark-child-no-end-rules): fail-closed is FALSE for this chain.  Workloads
+   cali11, cali12, cali2 known; a packet from the unknown interface cali13 matches "cali1+ -> goto child", finds no rule in
+   the child (which has no end rules) and returns to the caller unmarked instead of meeting the "Unknown endpoint"
+   drop.  Replayed on the real renderer by the correspondence run (cases tagged setmark:unknown-probe-captured-by-child). *)
+Theorem c10_setmark_unknown_fallthrough_refuted :
+  exists c wl hep mk msk rs pk,
+    names_ok 43 wl = true /\ set_mark_dispatch c wl hep mk msk = Some rs /\
+    mem (p_in pk) (wl ++ hep) = false /\ existsb (fun p => is_prefix p (p_in pk)) (cf_wlpfx c) = true /\
+    eval 43 rs pk (CRoot KSetMark) = RReturn /\
+    spec_setmark (cf_reject c) (cf_wlpfx c) wl hep mk msk (p_in pk) = RDrop.
+Proof.
+  exists (ex_cfg false), [[99;97;108;105;49;49]; [99;97;108;105;49;50]; [99;97;108;105;50]], [], 256, 65280.
+  eexists. exists (ex_pk [99;97;108;105;49;51]).
+  split; [reflexivity|split; [vm_compute; reflexivity|]]. repeat split; vm_compute; reflexivity.
+Qed.
+Print Assumptions c10_setmark_unknown_fallthrough_refuted.
+
+(* ======================= chain names ======================= *)
+(* chain ids -> chain names ("<root>", "<root>-<child id>") is injective: two different chains of the dispatch
+   trees never get the same name (what a name-keyed table would silently merge). *)
+Theorem c10_chain_name_injective : forall c c' n, chain_name c = Some n -> chain_name c' = Some n -> c = c'.
+Proof. exact chain_name_inj. Qed.
+Print Assumptions c10_chain_name_injective.
+
+Theorem c10_tree_chain_names_distinct : forall wc ix k cp gs E, good_groups cp gs ->
+  NoDup (map chain_name (map fst (build_tree wc ix k cp gs E))).
+Proof. exact tree_names_distinct. Qed.
+Print Assumptions c10_tree_chain_names_distinct.
+
+Theorem c10_workload_chain_names_distinct : forall c names rs,
+  names_ok (sem_wildcard (cf_nft c)) names = true -> cf_nft c = false ->
+  workload_dispatch c names = Some rs ->
+  NoDup (map chain_name (map fst (rs_chains rs))).
+Proof. exact workload_chain_names_distinct. Qed.
+Print Assumptions c10_workload_chain_names_distinct.
 
 (* ======================= part 2: programming the nftables dispatch verdict maps =======================
    Model: MapsModel.v (felix/nftables/maps.go Maps + the Apply/retry/recreate loop of table.go, against an
